@@ -1,6 +1,12 @@
 """C13 — diffs can be reversed and composed (src/diff.c: lyd_diff_reverse_all, lyd_diff_merge_all).
 
-(P) Props/C13.lean, Props/C13Merge.lean (23 theorems): reverse_apply_partial (unbounded: exact diffs of good trees — leaves,
+(P) Props/C13Tree.lean: merge_apply_partial_tree — apply(merge(diff(A,B), diff(B,C)), A) = C for ALL well-formed trees of the
+      fragment (keyed system-ordered lists, leaf-lists, containers, choices, any depth) with LYD_DIFF_DEFAULTS, both settings of
+      LYD_DIFF_MERGE_DEFAULTS (repaired F18(b)), under the decidable side condition mergeSafe (all cells of the merge table, inherited
+      operations included; excluded: a default-flagged second value in the cell none + replace, malformed key copies);
+      apply_exact_obs_keyed (forward specification of apply on exact diffs).  Props/C13RevUO.lean: the list core of the repaired
+      reversal of user-ordered lists (F15).
+    Props/C13.lean, Props/C13Merge.lean: reverse_apply_partial (unbounded: exact diffs of good trees — leaves,
       containers, choices, system-ordered lists / leaf-lists at any depth — reversed and applied give the tree back, default
       flags included), reverse_involutive, the witnesses of F15 / F18, the 4 x 4 merge table against the source
       (Generated/Diff13.lean, tools/extractors/diff13.py) and, for leaves, cell by cell against the composition of the two
@@ -56,6 +62,10 @@ ASSUMPTIONS = [
     "fragment is evaluated on every generated pair whose trees are good (op `exact`), not proved",
     "user-ordered lists/leaf-lists are outside the merge law (lyd_diff_is_redundant documents the merge of moves as lossy): "
     "their merge is compared with the model but a failing apply/compare is not a violation",
+    "merge_apply_partial_tree is proved for wfForest trees with canonical key / leaf-list values over a schemaOK schema under "
+    "mergeSafe(diff(A,B), diff(B,C)); these four decidable hypotheses are evaluated by the model (op hyp3) on every generated triple "
+    "whose schema has no user-ordered / duplicate-instance node, and where they hold the verdict `same` is required of the model's "
+    "and of libyang's merge3 reply (LYD_DIFF_DEFAULTS; with LYD_DIFF_MERGE_DEFAULTS when the source has the repaired F18(b) condition)",
 ]
 TRUSTED = ["tools/vlib/treegen.py (schema/instance generator, YANG renderer)", "harness/treeproto.h (tree loader and canonical dump)"]
 
